@@ -17,7 +17,7 @@ RULE = ('states = histories over {write(file, content_i), touch(file), '
         'increasing virtual clock; breadth-first, de-duplicated on a '
         'canonical form (file contents, rank pattern of all modification '
         'times in play, generic fingerprint of the enforcer attributes).  '
-        'Invariant at every observe: decision vector (5 names x 15 '
+        'Invariant at every observe: decision vector (6 names x 18 '
         'credentials) and printed rules of the long-lived enforcer == those '
         'of a new Enforcer on the same directory; no exception.  '
         'Supplementary: long histories from all concatenations of 5-step '
@@ -32,9 +32,10 @@ ASSUMPTIONS = [
     'common to both is C09 ground)',
 ]
 
-ROLES = ['dp', 'do', 'dn', 'dold', 'm1', 'mx', 'm2', 'mold', 'a1', 'a2',
+ROLES = ['dp', 'do', 'dn', 'dold', 'cn', 'cn2', 'cold', 'm1', 'mx', 'm2', 'mold', 'a1', 'a2',
          'anew', 'b1', 'e1', 'ex']
-PROBE_NAMES = ['svc:plain', 'svc:over', 'svc:new', 'svc:old', 'svc:extra']
+PROBE_NAMES = ['svc:plain', 'svc:over', 'svc:new', 'svc:old', 'svc:extra',
+               'svc:chg']
 CONTENTS = {
     'main': {'c1': {'svc:over': 'role:m1', 'svc:extra': 'role:mx'},
              'c2': {'svc:over': 'role:m2', 'svc:old': 'role:mold'},
@@ -191,6 +192,11 @@ def defaults(P):
         P.RuleDefault('svc:new', 'role:dn',
                       deprecated_rule=P.DeprecatedRule(
                           'svc:old', 'role:dold', deprecated_reason='r',
+                          deprecated_since='s')),
+        # same-name deprecation whose new default is a top-level 'or'
+        P.RuleDefault('svc:chg', 'role:cn or role:cn2',
+                      deprecated_rule=P.DeprecatedRule(
+                          'svc:chg', 'role:cold', deprecated_reason='r',
                           deprecated_since='s')),
     ]
 
